@@ -15,6 +15,9 @@ use std::net::{IpAddr, Ipv4Addr, Ipv6Addr, SocketAddr};
 
 /// (key type, scheme) combinations of this build
 pub fn kinds() -> Vec<(KT, Scheme)> {
+    if cfg!(miri) {
+        return vec![(KT::Toy, Scheme::Toy)];
+    }
     let mut v = vec![(KT::K256, Scheme::Secp)];
     #[cfg(feature = "libsecp")]
     v.push((KT::Libsecp, Scheme::Secp));
@@ -62,8 +65,10 @@ fn v6(last: u16) -> IpAddr {
 pub fn alphabet(scheme: Scheme, init_seq: u64, own_pub: &[u8], other_pub: &[u8]) -> Vec<Op> {
     let slot = scheme.enr_key().to_vec();
     let k = |s: &str| s.as_bytes().to_vec();
-    let other_secp = own_ref(Scheme::Secp, 0x5ec9).pub_bytes();
-    let other_ed = own_ref(Scheme::Ed, 0xed25).pub_bytes();
+    // fixed valid foreign keys (the EIP-778 example key; RFC 8032 test 1) — constants, so that building
+    // the alphabet costs no curve arithmetic under Miri
+    let other_secp = crate::util::unhex("03ca634cae0d49acb401d8a4c6b6fe8c55b70d115bf400769cc1400f3258cd3138").unwrap();
+    let other_ed = crate::util::unhex("d75a980182b10ab7d54bfed3c964073a0ee172f3daa62325af021a68f707511a").unwrap();
     let mut a: Vec<Op> = Vec::new();
     for s in [0, init_seq, init_seq.wrapping_add(1), 255, u64::MAX - 1, u64::MAX] {
         a.push(Op::SetSeq(s));
@@ -228,6 +233,18 @@ pub fn sub_alphabet(scheme: Scheme, init_seq: u64, own_pub: &[u8], other_pub: &[
 /// Initial records: built with the library builder and decoded from RefSig-signed records, at
 /// sequence-number and size boundaries.
 pub fn inits(scheme: Scheme, own: u64) -> Vec<(String, u64, Init)> {
+    thread_local! {
+        static CACHE: std::cell::RefCell<std::collections::HashMap<(Scheme, u64), Vec<(String, u64, Init)>>> = std::cell::RefCell::new(std::collections::HashMap::new());
+    }
+    if let Some(v) = CACHE.with(|c| c.borrow().get(&(scheme, own)).cloned()) {
+        return v;
+    }
+    let v = inits_uncached(scheme, own);
+    CACHE.with(|c| c.borrow_mut().insert((scheme, own), v.clone()));
+    v
+}
+
+fn inits_uncached(scheme: Scheme, own: u64) -> Vec<(String, u64, Init)> {
     let key = own_ref(scheme, own);
     let mut v: Vec<(String, u64, Init)> = Vec::new();
     v.push(("built-minimal".into(), 1, Init::Build(vec![])));
@@ -247,8 +264,10 @@ pub fn inits(scheme: Scheme, own: u64) -> Vec<(String, u64, Init)> {
     for s in [0u64, 127, 255, 65_535, 0xffff_ffff, u64::MAX - 1, u64::MAX] {
         v.push((format!("built-seq-{s}"), s, Init::Build(vec![BEntry::Seq(s), BEntry::Add(b"x".to_vec(), Val::U8(9)), BEntry::Udp4(1)])));
     }
-    // near the size limit: decoded records of exactly 290..=300 bytes
-    for (target, seq) in [(290usize, 1u64), (297, 127), (299, 255), (300, 5), (300, 65_535), (298, u64::MAX), (296, 1)] {
+    // near the size limit: decoded records of exactly 290..=300 bytes (not under Miri: the padding
+    // search alone would eat the interpreter's budget)
+    let near: &[(usize, u64)] = if cfg!(miri) { &[] } else { &[(290usize, 1u64), (297, 127), (299, 255), (300, 5), (300, 65_535), (298, u64::MAX), (296, 1)] };
+    for &(target, seq) in near {
         let mut rec = Rec::minimal(key, seq);
         rec.map.insert(b"ip".to_vec(), Item::S(vec![127, 0, 0, 1]));
         rec.map.insert(b"x".to_vec(), Item::S(vec![5]));
